@@ -671,3 +671,317 @@ Proof.
   destruct (step_spec g i go g' e t HI Hsm Ht Hs) as (_ & (_ & _ & _ & B) & _).
   rewrite (B Hat), He. reflexivity.
 Qed.
+
+
+(* ------------------------------------------------------------------ shape of a step, for trace arguments *)
+Definition in_nall (t : thread) : bool :=
+  negb (fin t) && Nat.eqb (cid t) 2 && Nat.leb 2 (pc t).
+Definition in_ww (t : thread) : bool :=
+  negb (fin t) && Nat.eqb (cid t) 0 && (Nat.eqb (pc t) 9 || Nat.eqb (pc t) 10 || Nat.eqb (pc t) 13).
+
+Definition shape_spec (g : sys) (t t' : thread) : Prop :=
+  (* results only grow, by the result of the current call *)
+  (results t' = results t \/ exists v, results t' = (cur t, v) :: results t) /\
+  (* a notify_all body stays a notify_all body until its call returns *)
+  (in_nall t = true ->
+   (in_nall t' = true /\ results t' = results t) \/ exists v, results t' = (cur t, v) :: results t) /\
+  (* a waiter between its token acquire and its re-acquire of the lock stays there
+     while the lock is taken *)
+  (in_ww t = true -> vv 0 g = 0 ->
+   in_ww t' = true /\ results t' = results t /\ cur t' = cur t /\ r0 (rg t') = r0 (rg t)).
+
+Ltac finish_shape Ht Hsc :=
+  unfold shape_spec, vv; cbn [sems thr];
+  rewrite (thread_at_upd _ _ _ _ _ Ht);
+  rewrite ?(results_start _ _ _ Hsc);
+  unfold in_nall, in_ww; simpw; cbn [Nat.eqb Nat.leb andb negb orb];
+  repeat split; intros; try discriminate; try lia; auto;
+  try solve [left; repeat split; reflexivity | right; eexists; reflexivity
+            | left; reflexivity].
+Lemma step_shape : forall g i go g' e t, Inv g -> small g -> nth_error (thr g) i = Some t ->
+    step code g i go = Some (g', e) ->
+    shape_spec g t (thread_at g' i).
+Proof.
+  intros g i go g' e t HI Hsm Ht H.
+  unfold step in H. rewrite Ht in H.
+  destruct (fin t) eqn:Hf; [discriminate|].
+  pose proof (i_li g HI t (nth_error_In _ _ Ht)) as Hli.
+  destruct (i_shape g HI) as [HmL H14].
+  destruct (H14 1%nat ltac:(lia)) as [Hr1 Hm1]. destruct (H14 2%nat ltac:(lia)) as [Hr2 Hm2].
+  destruct (H14 3%nat ltac:(lia)) as [Hr3 Hm3]. destruct (H14 4%nat ltac:(lia)) as [Hr4 Hm4].
+  pose proof (i_lock g HI) as Ilock. pose proof (i_lock0 g HI) as Ilock0.
+  pose proof (i_count g HI) as Icount. pose proof (i_s0 g HI) as Is0. pose proof (i_w0 g HI) as Iw0.
+  pose proof (i_tok g HI) as Itok. pose proof (i_flag g HI) as Iflag. pose proof (i_sz g HI) as Isz.
+  destruct Hsm as (Hs1 & Hs2 & Hs3). unfold vv, SVM in *.
+  assert (Hge : t_hl t <= sumz t_hl (thr g)) by (eapply sumz_ge_elem; eauto; intros; apply t_hl_01).
+  assert (Hgw : t_win t <= sumz t_win (thr g)) by (eapply sumz_ge_elem; eauto; intros; apply t_win_01).
+  assert (Hgn : 0 <= sumz t_win (thr g)) by (apply sumz_nonneg; intros; apply t_win_01).
+  assert (Hgf : 0 <= sumz t_fh (thr g)) by (apply sumz_nonneg; intros; apply t_fh_01).
+  assert (Hgz : 0 <= sumz t_sz (thr g)) by (apply sumz_nonneg; intros; apply t_sz_01).
+  assert (Hex : 1 <= t_hl t -> sumz t_pend (thr g) = t_pend t /\ sumz t_ntok (thr g) = t_ntok t /\
+                               sumz t_fh (thr g) = t_fh t /\ sumz t_sz (thr g) = t_sz t).
+  { intros H1. repeat split; eapply (sumz_excl _ t_hl); eauto; try (intros; apply t_hl_01); try lia;
+      intros x Hx; apply (t_excl x Hx). }
+  assert (Hex0 : t_hl t <= 0 -> t_pend t = 0 /\ t_ntok t = 0 /\ t_fh t = 0 /\ t_sz t = 0) by apply t_excl.
+  destruct t as [[[c a0] a1] p [x0 x1 x2 x3 x4 x5 x6 x7] h sc rs f]. cbn [fin] in Hf; subst f.
+  unfold LI in Hli; cbn [fin script results rg cur pc held cid fst snd] in Hli.
+  destruct Hli as (Hsc & Hrs & Hr0 & Hpc).
+  unfold cid in H; cbn [cur fst pc rg held] in H.
+  dn c 15%nat; dn p 28%nat; cbn in Hpc; try contradiction.
+  all: simpw; unfold res2 in *; simpw; split_all.
+  all: first [ specialize (Hex ltac:(lia)); clear Hex0 | specialize (Hex0 ltac:(lia)); clear Hex ]; split_all.
+  all: simp_in H; unfold sem_acq, sem_rel in H;
+    rewrite ?Hr1, ?Hr2, ?Hr3, ?Hr4, ?Hm1, ?Hm2, ?Hm3, ?Hm4, ?HmL in H; cbn [andb] in H;
+    destr_H H; try discriminate.
+  all: clear Hr1 Hr2 Hr3 Hr4 Hm1 Hm2 Hm3 Hm4 HmL H14.
+  all: try (exfalso; lia).
+  all: inversion H; subst g' e; clear H.
+  all: unfold advance, abort; simp; norm_held; fin_if.
+  all: try solve_start Hsc Hrs.
+
+
+  all: solve [finish_shape Ht Hsc].
+Qed.
+
+Lemma step_thr : forall g i go g' e, step code g i go = Some (g', e) ->
+    exists t, nth_error (thr g) i = Some t /\ thr g' = upd (thr g) i (thread_at g' i) /\
+              nth_error (thr g') i = Some (thread_at g' i).
+Proof.
+  intros g i go g' e H.
+  destruct (step_effect code 0%nat _ _ _ _ _ H) as (t & t' & Ht & Hthr & _).
+  exists t. split; [auto|].
+  assert (E : thread_at g' i = t').
+  { unfold thread_at. rewrite Hthr. apply nth_error_nth. eapply nth_error_upd_same; eauto. }
+  rewrite E. split; [auto|]. rewrite Hthr. eapply nth_error_upd_same; eauto.
+Qed.
+
+Lemma in_nall_hl : forall t, LI t -> in_nall t = true -> t_hl t = 1.
+Proof.
+  intros [[[c a0] a1] p r h sc rs f] (_ & _ & Hl). unfold t_hl, in_nall, cid in *.
+  cbn [fin cur fst snd pc rg held] in *. destruct f; [cbn; discriminate|].
+  destruct Hl as [_ Hp]. dn c 15%nat; dn p 28%nat; cbn in Hp |- *; try contradiction; try discriminate; auto.
+Qed.
+
+Lemma in_ww_pc13 : forall t, LI t -> in_ww t = true -> t_win t = 0 -> r0 (rg t) = 0 ->
+    at_ t 0 13 = true /\ pending t = Some 1.
+Proof.
+  intros [[[c a0] a1] p r h sc rs f] (_ & _ & Hl). unfold t_win, in_ww, at_, pending, cid in *.
+  cbn [fin cur fst snd pc rg held] in *. destruct f; [cbn; discriminate|].
+  destruct Hl as [_ Hp]. dn c 15%nat; dn p 28%nat; cbn in Hp |- *; try contradiction; try discriminate; auto.
+  intros _ _ Hr. unfold res2 in Hp. destruct Hp as (_ & _ & _ & _ & Hp). rewrite (Hp Hr). auto.
+Qed.
+
+(* NO LOST WAKE-UP, trace form.  Thread n is inside the body of a notify_all (it holds the
+   lock) in g1 while thread j is an untimed waiter blocked on the wait semaphore (it had
+   released the lock before).  Whatever the schedule, if in g2 thread n stands at the
+   final lock release of that same notify_all call, then thread j has taken its token
+   (its wait is going to return True) and stands at the re-acquisition of the lock of
+   that same wait call. *)
+Theorem notify_all_wakes_trace : forall sched g1 g2 es ok n j tn tu,
+    Inv g1 -> run_small g1 sched -> run code g1 sched = (g2, es, ok) -> n <> j ->
+    nth_error (thr g1) n = Some tn -> in_nall tn = true ->
+    nth_error (thr g1) j = Some tu -> at_ tu 0 9 = true -> r0 (rg tu) = 0 ->
+    at_ (thread_at g2 n) 2 24 = true -> results (thread_at g2 n) = results tn ->
+    at_ (thread_at g2 j) 0 13 = true /\ pending (thread_at g2 j) = Some 1 /\
+    cur (thread_at g2 j) = cur tu /\ results (thread_at g2 j) = results tu.
+Proof.
+  intros sched g1 g2 es ok n j tn tu HI Hsm Hrun Hnj Hn Hin Hj Hat Hr0 Hend Hres.
+  set (Q := fun g => exists tn' tu', nth_error (thr g) n = Some tn' /\ nth_error (thr g) j = Some tu' /\
+        (length (results tn) <= length (results tn'))%nat /\
+        (length (results tn') = length (results tn) ->
+         in_nall tn' = true /\ results tn' = results tn /\ in_ww tu' = true /\
+         results tu' = results tu /\ cur tu' = cur tu /\ r0 (rg tu') = 0)).
+  assert (HQ1 : Q g1).
+  { exists tn, tu. repeat split; auto.
+    destruct (at_inv _ _ _ Hat) as (Hf & Hc & Hp). unfold in_ww. rewrite Hf, Hc, Hp. reflexivity. }
+  assert (Hgen : forall sched g g' es ok, Inv g -> run_small g sched -> run code g sched = (g', es, ok) ->
+                 Q g -> Inv g' /\ Q g').
+  { clear - Hnj. induction sched as [|[i go] sched IH]; intros g g' es ok HI Hsm Hrun HQ; cbn [run] in Hrun.
+    - inversion Hrun; subst; auto.
+    - cbn [run_small] in Hsm. destruct Hsm as [Hsm Hs].
+      destruct (step code g i go) as [[ga e]|] eqn:Es; [|inversion Hrun; subst; auto].
+      destruct (run code ga sched) as [[gb es2] ok2] eqn:Er. inversion Hrun; subst.
+      apply (IH ga g' es2 ok); auto; [eapply inv_step; eauto|].
+      destruct HQ as (tn' & tu' & Hn & Hj & Hle & Himp).
+      destruct (step_thr _ _ _ _ _ Es) as (t & Ht & Hthr & Hnew).
+      pose proof (step_shape g i go ga e t HI Hsm Ht Es) as (S1 & S2 & S3).
+      destruct (Nat.eq_dec i n) as [En|En]; [|destruct (Nat.eq_dec i j) as [Ej|Ej]].
+      + (* the notifier steps *)
+        subst i. assert (t = tn') by congruence. subst t.
+        exists (thread_at ga n), tu'. split; [auto|]. split; [rewrite Hthr, nth_error_upd_other; auto|].
+        destruct S1 as [S1|[v S1]]; rewrite S1.
+        * split; [auto|]. intros Hl. destruct (Himp Hl) as (A & B & C).
+          destruct (S2 A) as [[A' B']|[v B']]; [|rewrite B' in S1; exfalso; apply (f_equal (@length _)) in S1; cbn in S1; lia].
+          repeat split; auto; try apply C; try congruence.
+        * cbn [length]. split; [lia|]. intros Hl. lia.
+      + (* the waiter steps *)
+        subst i. assert (t = tu') by congruence. subst t.
+        exists tn', (thread_at ga j). split; [rewrite Hthr, nth_error_upd_other; auto|]. split; [auto|].
+        split; [auto|]. intros Hl. destruct (Himp Hl) as (A & B & C & D & E & F).
+        assert (HL : vv 0 g = 0).
+        { pose proof (in_nall_hl tn' (i_li g HI tn' (nth_error_In _ _ Hn)) A).
+          pose proof (sumz_ge_elem _ t_hl (thr g) n tn' (fun x _ => proj1 (t_hl_01 x)) Hn).
+          pose proof (i_lock g HI). pose proof (i_lock0 g HI). lia. }
+        destruct (S3 C HL) as (C' & D' & E' & F'). repeat split; auto; congruence.
+      + (* somebody else steps *)
+        exists tn', tu'. rewrite Hthr, !nth_error_upd_other by auto. repeat split; auto; apply Himp; auto. }
+  destruct (Hgen sched g1 g2 es ok HI Hsm Hrun HQ1) as [HI2 (tn2 & tu2 & Hn2 & Hj2 & Hle & Himp)].
+  assert (En : thread_at g2 n = tn2) by (unfold thread_at; apply nth_error_nth; auto).
+  assert (Eu : thread_at g2 j = tu2) by (unfold thread_at; apply nth_error_nth; auto).
+  rewrite En in *. rewrite Eu.
+  destruct (Himp ltac:(rewrite Hres; reflexivity)) as (A & B & C & D & E & F).
+  destruct (at_inv _ _ _ Hend) as (Hf & Hc & Hp).
+  assert (Hdone : nall_done tn2) by (split; [auto|left; auto]).
+  destruct (notify_all_wakes g2 n tn2 HI2 Hn2 Hdone) as (Hw & _).
+  destruct (in_ww_pc13 tu2 (i_li g2 HI2 tu2 (nth_error_In _ _ Hj2)) C (Hw tu2 (nth_error_In _ _ Hj2)) F) as [P1 P2].
+  auto.
+Qed.
+
+(* ================================================================== transport to the generated programs
+   Everything above is about the hand-kept programs of Model/CondProg.v; the statements
+   below are about Gen/P_cond.v, i.e. about what translate/kernels/semprog.py compiled from
+   the repository on this run. *)
+Definition gen_world (lockrec : bool) (k : Z) : list sem :=
+  P_cond.ctor_Condition (if lockrec then P_cond.ctor_RLock else P_cond.ctor_Lock)
+  ++ [P_cond.ctor_Semaphore 0; P_cond.ctor_Semaphore k; P_cond.ctor_BoundedSemaphore k;
+      P_cond.ctor_Lock; P_cond.ctor_RLock].
+
+Lemma gen_world_eq : forall lockrec k, gen_world lockrec k = world lockrec k.
+Proof. intros [|] k; reflexivity. Qed.
+
+Definition gen_init (lockrec : bool) (k : Z) (scripts : list (list call)) : sys :=
+  init_sys P_cond.code (gen_world lockrec k) scripts.
+
+Lemma gen_init_eq : forall lockrec k scripts, gen_init lockrec k scripts = init lockrec k scripts.
+Proof.
+  intros. unfold gen_init, init. rewrite gen_world_eq. apply init_sys_ext. apply gen_code_eq.
+Qed.
+
+Lemma gstep : forall g i go, step P_cond.code g i go = step code g i go.
+Proof. apply step_ext. apply gen_code_eq. Qed.
+
+Lemma grun : forall sched g, run P_cond.code g sched = run code g sched.
+Proof. apply run_ext. apply gen_code_eq. Qed.
+
+(* no counter reaches SEM_VALUE_MAX along the run (a release would raise ValueError) *)
+Fixpoint gen_run_small (g : sys) (sched : list (nat * bool)) : Prop :=
+  small g /\
+  match sched with
+  | [] => True
+  | (i, go) :: r =>
+    match step P_cond.code g i go with Some (g1, _) => gen_run_small g1 r | None => True end
+  end.
+
+Lemma gen_run_small_eq : forall sched g, gen_run_small g sched -> run_small g sched.
+Proof.
+  induction sched as [|[i go] sched IH]; intros g H; cbn [gen_run_small run_small] in *; [auto|].
+  destruct H as [A B]. split; [auto|]. rewrite gstep in B.
+  destruct (step code g i go) as [[g1 e]|]; auto.
+Qed.
+
+(* states reachable by the generated programs from an initial world, any number of threads,
+   any scripts of client calls (ids 0..14), any schedule *)
+Definition Reach (g : sys) : Prop :=
+  exists lockrec k scripts sched es ok,
+    Forall (Forall okcall) scripts /\
+    gen_run_small (gen_init lockrec k scripts) sched /\
+    run P_cond.code (gen_init lockrec k scripts) sched = (g, es, ok).
+
+Theorem reach_inv : forall g, Reach g -> Inv g.
+Proof.
+  intros g (lockrec & k & scripts & sched & es & ok & Hs & Hsm & Hrun).
+  rewrite grun, gen_init_eq in Hrun. rewrite gen_init_eq in Hsm.
+  eapply inv_run; [apply inv_init; eauto|apply gen_run_small_eq; eauto|eauto].
+Qed.
+
+Theorem G_mutex : forall g i j ti tj, Reach g ->
+    nth_error (thr g) i = Some ti -> nth_error (thr g) j = Some tj ->
+    0 < nth 0 (held ti) 0 -> 0 < nth 0 (held tj) 0 -> i = j.
+Proof. intros g i j ti tj HR. apply cond_mutex. apply reach_inv; auto. Qed.
+
+Theorem G_counts : forall g, Reach g ->
+    vv 1 g - vv 2 g + sumz t_pend (thr g) = sumz t_win (thr g) /\
+    0 <= vv 3 g <= sumz t_ntok (thr g) /\
+    (quiet g -> vv 3 g = 0 /\ vv 1 g - vv 2 g = sumz t_win (thr g)) /\
+    (vv 0 g = 1 -> quiet g).
+Proof.
+  intros g HR. pose proof (reach_inv g HR) as HI.
+  destruct (cond_counts g HI) as (A & B & C).
+  split; [exact A|]. split; [exact B|]. split; [exact C|].
+  apply lock_free_quiet; auto.
+Qed.
+
+Theorem G_results : forall g t, Reach g -> In t (thr g) -> Forall okres (results t).
+Proof. intros g t HR. apply cond_results. apply reach_inv; auto. Qed.
+
+Theorem G_notify_all_wakes : forall g i t, Reach g -> nth_error (thr g) i = Some t -> nall_done t ->
+    (forall u, In u (thr g) -> t_win u = 0) /\ vv 1 g = 0 /\ vv 2 g = 0.
+Proof. intros g i t HR. apply notify_all_wakes. apply reach_inv; auto. Qed.
+
+Theorem G_notify_all_wakes_trace : forall sched g1 g2 es ok n j tn tu,
+    Reach g1 -> gen_run_small g1 sched -> run P_cond.code g1 sched = (g2, es, ok) -> n <> j ->
+    nth_error (thr g1) n = Some tn -> in_nall tn = true ->
+    nth_error (thr g1) j = Some tu -> at_ tu 0 9 = true -> r0 (rg tu) = 0 ->
+    at_ (thread_at g2 n) 2 24 = true -> results (thread_at g2 n) = results tn ->
+    at_ (thread_at g2 j) 0 13 = true /\ pending (thread_at g2 j) = Some 1 /\
+    cur (thread_at g2 j) = cur tu /\ results (thread_at g2 j) = results tu.
+Proof.
+  intros sched g1 g2 es ok n j tn tu HR Hsm Hrun. rewrite grun in Hrun.
+  eapply notify_all_wakes_trace; eauto; [apply reach_inv; auto|apply gen_run_small_eq; auto].
+Qed.
+
+Theorem G_notify_one : forall g i t, Reach g -> nth_error (thr g) i = Some t ->
+    fin t = false -> cid t = 1%nat -> t_hl t = 1 ->
+    vv 3 g <= 1 /\
+    ((pc t = 13%nat \/ pc t = 14%nat) -> vv 1 g = 0 -> forall u, In u (thr g) -> t_win u = 0).
+Proof. intros g i t HR. apply notify_one. apply reach_inv; auto. Qed.
+
+Theorem G_timed_out_wait : forall g i t, Reach g -> small g -> nth_error (thr g) i = Some t ->
+    at_ t 0 9 = true -> r0 (rg t) <> 0 ->
+    exists g', step P_cond.code g i false = Some (g', (i, 3%nat, 0, 0)) /\ Inv g' /\
+               pending (thread_at g' i) = Some 0.
+Proof.
+  intros g i t HR Hsm Ht Hat Hr. rewrite gstep. eapply timed_out_wait; eauto. apply reach_inv; auto.
+Qed.
+
+Theorem G_untimed_wait_true : forall g i t go g' e, Reach g -> small g -> nth_error (thr g) i = Some t ->
+    at_ t 0 9 = true -> r0 (rg t) = 0 -> step P_cond.code g i go = Some (g', e) ->
+    e = (i, 3%nat, 0, 1) /\ pending (thread_at g' i) = Some 1.
+Proof.
+  intros g i t go g' e HR Hsm Ht Hat Hr Hs. rewrite gstep in Hs. eapply untimed_wait_true; eauto.
+  apply reach_inv; auto.
+Qed.
+
+Theorem G_step : forall g i go g' e t, Reach g -> small g -> nth_error (thr g) i = Some t ->
+    step P_cond.code g i go = Some (g', e) ->
+    Inv g' /\ flag_spec i t g g' e /\ res_spec t (thread_at g' i).
+Proof.
+  intros g i go g' e t HR Hsm Ht Hs. rewrite gstep in Hs. eapply step_spec; eauto. apply reach_inv; auto.
+Qed.
+
+Theorem G_flag_01 : forall g, Reach g -> aflag g = 0 \/ aflag g = 1.
+Proof. intros g HR. apply aflag_01. apply reach_inv; auto. Qed.
+
+(* non-vacuity: a reachable state with a timed waiter past its timeout, an untimed waiter
+   blocked, and a notify_all in its acknowledgement loop *)
+Definition ex_scripts : list (list call) := [[(0%nat, 0, 0)]; [(0%nat, 1, 0)]; [(2%nat, 0, 0)]].
+Definition ex_sched : list (nat * bool) :=
+  [(0%nat, true); (0%nat, true); (0%nat, true); (1%nat, true); (1%nat, true); (1%nat, true);
+   (1%nat, false); (2%nat, true); (2%nat, true); (2%nat, true); (2%nat, true); (2%nat, true);
+   (2%nat, true); (2%nat, true); (2%nat, true)].
+Definition ex_state : sys := fst (fst (run P_cond.code (gen_init false 1 ex_scripts) ex_sched)).
+
+Lemma ex_witness :
+  Reach ex_state /\ vv 3 ex_state = 2 /\ sumz t_ntok (thr ex_state) = 2 /\
+  sumz t_win (thr ex_state) = 2 /\ sumz t_pend (thr ex_state) = 2 /\
+  exists t, nth_error (thr ex_state) 0 = Some t /\ at_ t 0 9 = true /\ r0 (rg t) = 0.
+Proof.
+  split.
+  - exists false, 1, ex_scripts, ex_sched.
+    destruct (run P_cond.code (gen_init false 1 ex_scripts) ex_sched) as [[g es] ok] eqn:E.
+    exists es, ok. split; [|split].
+    + repeat constructor; unfold okcall; cbn; lia.
+    + vm_compute. repeat split.
+    + unfold ex_state. rewrite E. reflexivity.
+  - vm_compute. repeat split. eexists; repeat split.
+Qed.
